@@ -208,7 +208,8 @@ def core_phase(ctx, n):
     # blocks used as operands of `&&` / `||`), shadowing
     cases = [gen_case(ctx.rng.randrange(1 << 48), i, 6,
                       features=[{"core"}, {"core", "assign", "impure", "shadow"}, {"core", "match"},
-                                {"core", "match", "assign", "impure", "shadow"}][i % 4], depth=4) for i in range(n)]
+                                {"core", "match", "assign", "impure", "shadow"}, {"core", "helpers", "assign", "impure"},
+                                {"core", "helpers", "match", "assign", "impure", "shadow"}][i % 6], depth=4) for i in range(n)]
     impl = common.run_lines_guarded(common.GVH, [impl_case(c, "ssa", True) for c in cases], per_case_timeout=20.0)
     bit, _, _ = ctx.run_model([dict(model_case(c), op="bit_eval") for c in cases], timeout=3000)
     tally = {"value": 0, "panic": 0, "outside": 0}
